@@ -1,7 +1,7 @@
 (* Property C11 — diagnosed classes of invalid programs are always rejected, at the right
    place.  Proved here, for ALL inputs of each leaf decision procedure (models transliterated
    from wgsl/internal/lower/lower.go, tied to /repo by Diag/DiagInst.v + Gen/DiagTables.v):
-   the procedure implements the WGSL rule, or a witness that it does not (`_refuted`).
+   the procedure implements the WGSL rule.
    The quantifier "every syntactic site" of the property is NOT a theorem (no model of the
    whole lowerer exists): it is covered by site enumeration on the implementation, see
    checks/c11.py.  Hence every statement about the whole property is `_partial`. *)
@@ -59,27 +59,19 @@ Theorem c11_edited_program_underivable : forall l i t,
 Proof. intros l i t Hw Hd. split; [intros Hn; exact (edited_not_wf_remove l i t Hw Hn Hd)|exact (edited_not_wf_insert l i t Hw Hd)]. Qed.
 Print Assumptions c11_edited_program_underivable.
 
-(* ---- @group/@binding: correct when the arguments are literals; refuted in general *)
-Theorem c11_pairing_partial : forall attrs,
-  (forall a, In a attrs -> (aname a = "group" \/ aname a = "binding")%string -> exists r, aargs a = ALit :: r) ->
-  pairing_model attrs = pairing_spec attrs.
-Proof. exact pairing_model_eq_spec_literal_args. Qed.
-Print Assumptions c11_pairing_partial.
+(* ---- @group/@binding: the pairing test equals the rule for every attribute list *)
+Theorem c11_pairing_model_eq_spec : forall attrs, pairing_model attrs = pairing_spec attrs.
+Proof. exact pairing_model_eq_spec. Qed.
+Print Assumptions c11_pairing_model_eq_spec.
 
-Theorem c11_pairing_refuted : exists attrs, pairing_spec attrs = true /\ pairing_model attrs = false.
-Proof. exact pairing_refuted. Qed.
-Print Assumptions c11_pairing_refuted.
+(* ---- array element count: an error exactly for non-positive counts; equal to the rule below 2^32 *)
+Theorem c11_array_size_error_iff_nonpositive : forall v, array_size_model (Some v) = SizeError <-> v <= 0.
+Proof. exact array_size_error_iff_nonpositive. Qed.
+Print Assumptions c11_array_size_error_iff_nonpositive.
 
-(* ---- array element count: zero is rejected, positive counts are kept, negative ones are accepted *)
-Theorem c11_array_size_partial : forall v,
-  (int64 v -> (array_size_model (Some v) = SizeError <-> v = 0)) /\
-  (0 < v < two32 -> array_size_model (Some v) = array_size_spec v).
-Proof. intros v. split; [exact (array_size_error_iff_zero v)|exact (array_size_positive_ok v)]. Qed.
-Print Assumptions c11_array_size_partial.
-
-Theorem c11_array_size_refuted : exists v, int64 v /\ array_size_spec v = SizeError /\ array_size_model (Some v) = SizeConst 4294967295.
-Proof. exact array_size_refuted. Qed.
-Print Assumptions c11_array_size_refuted.
+Theorem c11_array_size_model_eq_spec : forall v, v < two32 -> array_size_model (Some v) = array_size_spec v.
+Proof. exact array_size_model_eq_spec. Qed.
+Print Assumptions c11_array_size_model_eq_spec.
 
 (* ---- @workgroup_size ---- *)
 Theorem c11_workgroup_size_model_eq_spec : forall names,
@@ -131,7 +123,8 @@ Proof. apply (wf_app [TOther] [TOpen Paren; TOther; TClose Paren]); [constructor
 Example c11_example_leaf :
   pairing_model [{| aname := "group"; aargs := [ALit] |}] = true /\
   pairing_model [{| aname := "binding"; aargs := [ALit] |}; {| aname := "group"; aargs := [ALit] |}] = false /\
-  array_size_model (Some 0) = SizeError /\ array_size_model (Some 4) = SizeConst 4 /\
+  array_size_model (Some 0) = SizeError /\ array_size_model (Some (-1)) = SizeError /\ array_size_model (Some 4) = SizeConst 4 /\
+  pairing_model [{| aname := "group"; aargs := [AOther] |}] = true /\
   wg_model ["compute"%string] = true /\ wg_model ["workgroup_size"; "compute"]%string = false /\ wg_model ["fragment"%string] = false /\
   const_div_model true 7 0 = None /\ const_div_model false (-7) 2 = Some (-1) /\
   pos_in_source [10; 0; 5] 3 6 = true /\ pos_in_source [10; 0; 5] 3 7 = false /\ pos_in_source [10; 0; 5] 4 1 = false.
